@@ -190,6 +190,7 @@ type Exec struct {
 	cacheHits     int
 	curKind       string
 	pkgInit       map[*ssa.Package]bool
+	inPkgInit     int
 	symmetryPruned int
 	solver2       *Solver
 	crossBudget   *int
@@ -611,6 +612,9 @@ func (e *Exec) newThread(name string, start func(t *Thread)) *Thread {
 // visible parks the thread at a visible operation until the scheduler picks it.
 func (t *Thread) visible(op *SyncOp) {
 	e := t.e
+	if e.inPkgInit > 0 {
+		return // library package initialisers run before anything else could interleave
+	}
 	if t.inMon || t.id < 0 {
 		panic(pathAbort{"fatal", "visible operation " + op.kind + " inside vMon/vBlockUntil body at " + t.posOf(op.tpos)})
 	}
